@@ -172,6 +172,9 @@ def observe_load(h, o, pfx='', declared=None):
         if not g.genes:
             continue
         if g.taxon.is_leaf():
+            gm_ = h.get_dict_extant_genes()
+            if any(gm_.get(x.unique_id) is not x for x in g.genes) or len(set(x.unique_id for x in g.genes)) != len(g.genes):
+                o.problems.append('the genome at %s lists a gene twice, or a gene object that is not the one the analysis returns for that id' % taxS(p))
             o.put(pfx + 'genomes', taxS(p) + '=' + ';'.join(sorted('g:' + x.unique_id for x in g.genes)))
         else:
             ks = []
